@@ -41,12 +41,12 @@ PROPS = {
         ]),
     'C09': dict(
         witness=[dict(append_to='tonic/src/transport/service/grpc_timeout.rs', module='replay/timeout_witness.rs', crate='tonic', filter='verif_witness_timeout', features=['--features', 'gzip,deflate,zstd']), dict(append_to='tonic/src/request.rs', module='replay/request_witness.rs', crate='tonic', filter='verif_witness_request', features=['--features', 'gzip,deflate,zstd'])],
-        units=['timeout', 'serverconfig'], level='proof',
+        units=['timeout', 'serverconfig'], kani=['timeout_digits'], level='proof',
         not_covered=[
             'elapsed (virtual) time: that tokio::time::sleep(d) fires after exactly d and the grid of (caller timeout, configured timeout, handler latency) triples - the timer is an assumed primitive (A-tokio-01)',
             'mapping of TimeoutExpired to a CANCELLED "Timeout expired" status goes through dyn Error source chains (Status::from_error / find_status_in_source_chain, RecoverError): not under contract',
             'Request::set_timeout (duration_to_grpc_timeout(..).parse::<MetadataValue>().unwrap()) is not under contract; of the server wiring only the Server builder (setters, layer()) is: the hand-over Server.timeout -> MakeSvc.timeout -> GrpcTimeout::new inside serve_internal / MakeSvc::call (async fn, tower builder closures) and tls_config / trace_fn are not',
-            'is_ascii_digits (iterator adapter) is a Kani-complete harness of the Kani lane, linked as a callee contract; str::parse::<u64>, str::split_at, Display of integers are assumed std contracts (A-std-parse-01, A-std-str-04, A-fmt-01)',
+            'is_ascii_digits (iterator adapter) is discharged by the complete Kani harness kani::timeout_digits for every ASCII string of at most 8 bytes - the Verus shim carries that length as a precondition, proved at the call site - and linked as a callee contract; str::parse::<u64>, str::split_at, Display of integers are assumed std contracts (A-std-parse-01, A-std-str-04, A-fmt-01)',
         ]),
     'C08': dict(
         units=['metadata', 'reqresp', 'status'], level='proof',
@@ -58,9 +58,9 @@ PROPS = {
         ]),
     'C05': dict(
         witness=[dict(append_to='tonic/src/codec/compression.rs', module='replay/compression_witness.rs', crate='tonic', filter='verif_witness_compression', features=['--features', 'gzip,deflate,zstd']), dict(append_to='tonic/src/codec/decode.rs', module='replay/decode_witness.rs', crate='tonic', filter='verif_witness_decode', features=['--features', 'gzip,deflate,zstd'])],
-        units=['compression', 'decode', 'encode'], level='proof',
+        units=['compression', 'decode', 'encode'], kani=['cfg_is_enabled', 'cfg_is_empty', 'cfg_enable', 'cfg_pop'], level='proof',
         not_covered=[
-            'EnabledCompressionEncodings::{enable,pop,is_enabled,is_empty,into_accept_encoding_header_value} use iterator adapters Verus rejects: their contracts (A-tonic-cfg-01) are the complete Kani harnesses of the Kani lane (all slot states), linked here as callee contracts',
+            'EnabledCompressionEncodings::{enable,pop,is_enabled,is_empty} use iterator adapters Verus rejects: their contracts are discharged by the complete Kani harnesses kani::cfg_* on the real code (all slot states x all encodings) and linked in the Verus units as callee contracts; into_accept_encoding_header_value is intractable for CBMC (46 GB) and stays an assumed contract (A-tonic-cfg-01)',
             'server/client plumbing that passes the right one of the two configured sets (send vs accept) into these functions (server::Grpc, client::Grpc glue) is not yet under contract',
             'completeness of the response-encoding picker (an offered and enabled encoding IS chosen) is not demanded by the statement and not proved (string-literal match gives arm=>equal only)',
             'str::split / str::trim semantics are the uninterpreted comma_tokens (A-std-split-01)',
@@ -74,10 +74,10 @@ PROPS = {
         ]),
     'C04': dict(
         witness=[dict(append_to='tonic/src/status.rs', module='replay/status_witness.rs', crate='tonic', filter='verif_witness_status', features=['--features', 'gzip,deflate,zstd'])],
-        units=['status'], level='proof',
+        units=['status'], kani=['encoding_set', 'code_from_h2_table', 'h2_reason_constants', 'http_status_constants'], level='proof',
         not_covered=[
             'percent-encoding and base64 crates implement their RFCs and are mutually inverse (axioms A-pct-01, A-b64-01); tonic/src/util.rs engine configuration is represented by the Engine shim',
-            'that ENCODING_SET escapes every byte http::HeaderValue rejects is the Kani harness kx::encoding_set (not yet wired in this build)',
+            'percent-encoding itself (that pct_dec inverts pct_enc) is assumed (A-pct-01/02); WHICH bytes tonic asks it to escape is decided: the complete Kani harness kani::encoding_set runs the real percent_encode with the real ENCODING_SET on all 256 bytes',
             'metadata that itself uses one of the three status header names (grpc-status-details-bin is not reserved) is outside lemma_status_roundtrip',
             'h2 reasons FRAME_SIZE_ERROR, STREAM_CLOSED, HTTP_1_1_REQUIRED and unknown ones are left unconstrained (the property names no code for them)',
             'from_error / from_hyper_error / find_status_in_source_chain (dyn Error source chains) are not under contract',
